@@ -108,7 +108,7 @@ theorem text_strings_end_to_end (strs : List TStr) (hidx : (strs.map (·.idx)).N
     obtain ⟨t', ht', a', ha', rfl⟩ := ha
     exact atomsOf_bytes_ne_nil (hleg t' ht') (hs t' ht') (hw t' ht') a' ha'
   have hC : CandsOK t.w t.m t.s buf C :=
-    build_candsOK (atomsFor strs) hne hlen T hb t.idx t.w t.m t.s (mem_atomsFor hidx ht) buf
+    build_candsOK (atomsFor strs) (fun a ha hnil => absurd hnil (hne a ha)) hlen T hb t.idx t.w t.m t.s (mem_atomsFor hidx ht) buf
   exact pipeline_exact_partial t.w t.m t.s buf C (hleg t ht) (hs t ht) (hw t ht) hC h19 h20
 
 /-! Non-vacuity: two strings sharing a prefix in one automaton ("abcd" nocase-free ascii, "abce" wide+ascii); the built
